@@ -53,8 +53,17 @@ def judge(ctx, kind, graph_seed, knobs, audio_mode):
     n, shared = shape(obj)
     ctx.case((kind, f"opt{knobs.get('p_opt')}", f"share{knobs.get('p_share')}", audio_mode, "size" + str(knobs.get("size", 2))), _spec, nontrivial=(n > 1 and shared))
     path = os.path.join(AC.tmpdir(), f"c01-{os.getpid()}.json")
+    before = obj.model_copy(deep=True)
     try:
         IO.save(obj, path, audio_dir=audio_dir)
+        # "equals the original": the original is what the caller handed in, so save must leave it alone
+        ctx.mon("original_untouched_by_save")
+        from rv.core.walk import diff as _diff
+
+        dd = _diff(before, obj, term_by_label=False)
+        if dd:
+            ctx.violate("save_mutates_original", f"save_mutates_original:{kind}:{AC._field_key(before, dd[0])}", observed={"path": dd[0], "before": dd[1], "after": dd[2]},
+                        expected="save leaves the saved object unchanged", spec=_spec)
     except Exception as e:
         ctx.violate_exc("save_raises", f"save_raises:{kind}:{type(e).__name__}", e, spec=_spec)
     finally:
@@ -71,7 +80,7 @@ def run(ctx):
     ctx.assumptions += ["simple-label terms; feature labels distinct within a list; finite numbers; list members distinct within a collection's top-level lists",
                         "terms compare by label (the one reduction the statement permits); every other declared field compared with ==",
                         f"{CYCLES + 1} consecutive save/load cycles per graph; cycles >= 2 must be exact fixpoints (objects and documents up to the envelope created_on)"]
-    ctx.must_monitors += ["roundtrip", "fixpoint"]
+    ctx.must_monitors += ["roundtrip", "fixpoint", "original_untouched_by_save"]
     ctx.must_reach += ["io/aoef/__init__.py::save", "io/aoef/__init__.py::load", "io/saver.py::save"]
 
     # directed witnesses of the three fixed defects
